@@ -299,7 +299,7 @@ var leanReserved = map[string]bool{"end": true, "at": true, "from": true, "to": 
 	"break": true, "continue": true, "import": true, "export": true, "local": true, "private": true, "protected": true, "mutual": true,
 	"inductive": true, "deriving": true, "extends": true, "using": true, "calc": true, "nomatch": true, "nofun": true, "macro": true,
 	"syntax": true, "notation": true, "infix": true, "prefix": true, "postfix": true, "set_option": true, "attribute": true, "universe": true,
-	"example": true, "abbrev": true, "opaque": true, "axiom": true, "bech": true, "I": true, "Go": true, "strings": true}
+	"example": true, "abbrev": true, "world": true, "world0": true, "opaque": true, "axiom": true, "bech": true, "I": true, "Go": true, "strings": true}
 
 func (c *fctx) nameOf(o types.Object) string {
 	if n, ok := c.names[o]; ok {
@@ -393,9 +393,6 @@ func (c *fctx) expr(e *emitter, ind int, x ast.Expr) string {
 }
 
 func (c *fctx) lift() string {
-	if c.f.stateful {
-		return "Go.liftP"
-	}
 	return "id"
 }
 
@@ -783,20 +780,20 @@ func (c *fctx) call(e *emitter, ind int, call *ast.CallExpr, want int) []string 
 	case "github.com/cosmos/cosmos-sdk/types.UnwrapSDKContext":
 		return []string{"()"}
 	case "github.com/cosmos/cosmos-sdk/types.KVStorePrefixIterator":
-		return c.bind(e, ind, "Go.Store.iterate "+arg(0)+" "+arg(1), 1)
+		return []string{"(Go.Store.iterate " + arg(0) + " " + arg(1) + " world)"}
 	case "github.com/cosmos/cosmos-sdk/store/prefix.NewStore":
 		return []string{"(Go.prefixStore " + arg(0) + " " + arg(1) + ")"}
 	case "github.com/cosmos/cosmos-sdk/types.Context.KVStore":
 		return []string{arg(0)}
 	case "github.com/cosmos/cosmos-sdk/store/prefix.Store.Set":
-		c.bind(e, ind, "Go.Store.set "+c.expr(e, ind, sel.X)+" "+arg(0)+" "+arg(1), 0)
+		e.add(ind, "world ← Go.Store.set "+c.expr(e, ind, sel.X)+" "+arg(0)+" "+arg(1)+" world")
 		return nil
 	case "github.com/cosmos/cosmos-sdk/store/prefix.Store.Get":
-		return c.bind(e, ind, "Go.Store.get "+c.expr(e, ind, sel.X)+" "+arg(0), 1)
+		return []string{"(Go.Store.get " + c.expr(e, ind, sel.X) + " " + arg(0) + " world)"}
 	case "github.com/cosmos/cosmos-sdk/store/prefix.Store.Has":
-		return c.bind(e, ind, "Go.Store.has "+c.expr(e, ind, sel.X)+" "+arg(0), 1)
+		return []string{"(Go.Store.has " + c.expr(e, ind, sel.X) + " " + arg(0) + " world)"}
 	case "github.com/cosmos/cosmos-sdk/store/prefix.Store.Delete":
-		c.bind(e, ind, "Go.Store.delete "+c.expr(e, ind, sel.X)+" "+arg(0), 0)
+		e.add(ind, "world ← Go.Store.delete "+c.expr(e, ind, sel.X)+" "+arg(0)+" world")
 		return nil
 	case "cosmossdk.io/errors.Wrapf", "cosmossdk.io/errors.Wrap":
 		return []string{"(Go.wrap " + arg(0) + ")"}
@@ -851,7 +848,7 @@ func (c *fctx) call(e *emitter, ind int, call *ast.CallExpr, want int) []string 
 	case "time.Time.UnixNano":
 		inner, ok := sel.X.(*ast.CallExpr)
 		if ok && strings.HasSuffix(calleeName(inner.Fun), ".BlockTime") {
-			return c.bind(e, ind, "Go.blockTimeUnixNano", 1)
+			return []string{"(Go.blockTimeUnixNano world)"}
 		}
 		fail("UnixNano of something that is not ctx.BlockTime()")
 	}
@@ -1077,17 +1074,24 @@ func (c *fctx) callTranslated(e *emitter, ind int, cf *cfn, call *ast.CallExpr, 
 		head += " " + dict
 	}
 	rhs := head + " " + strings.Join(args, " ")
-	if !cf.stateful && c.f.stateful {
-		rhs = "Go.liftP (" + rhs + ")"
-	}
 	nres := sig.Results().Len()
 	total := nres + len(backAssign)
+	if cf.stateful {
+		if !c.f.stateful {
+			fail("stateful callee %s in a pure function", cf.lean)
+		}
+		rhs += " world"
+		total++
+	}
 	r := c.bind(e, ind, strings.TrimSpace(rhs), total)
 	if total > 0 && len(r) == 0 {
 		fail("internal: results")
 	}
 	for i, ba := range backAssign {
 		e.add(ind, fmt.Sprintf(ba, r[nres+i]))
+	}
+	if cf.stateful {
+		e.add(ind, "world := "+r[total-1])
 	}
 	if want == 0 && nres > 0 && total == nres {
 		// result ignored: the `let` above already ran it
@@ -1367,6 +1371,9 @@ func (c *fctx) ret(e *emitter, ind int, v *ast.ReturnStmt) {
 		if c.f.mut[i] {
 			parts = append(parts, c.nameOf(sl))
 		}
+	}
+	if c.f.stateful {
+		parts = append(parts, "world")
 	}
 	switch len(parts) {
 	case 0:
@@ -1668,6 +1675,9 @@ func (g *cgen) translate(cf *cfn) {
 		rt = "(" + strings.Join(res, " × ") + ")"
 	}
 	e := &emitter{}
+	if cf.stateful {
+		e.add(1, "let mut world := world0")
+	}
 	// parameters that are assigned in the body need `let mut` shadows
 	for _, n := range c.assignedParams() {
 		e.add(1, fmt.Sprintf("let mut %s := %s", n, n))
@@ -1685,7 +1695,14 @@ func (g *cgen) translate(cf *cfn) {
 	}
 	mon := "Go.P"
 	if cf.stateful {
-		mon = "Go.M"
+		params = append(params, "(world0 : Go.World)")
+		if rt == "Unit" {
+			rt = "Go.World"
+		} else if len(res) == 1 {
+			rt = "(" + rt + " × Go.World)"
+		} else {
+			rt = "(" + strings.TrimSuffix(strings.TrimPrefix(rt, "("), ")") + " × Go.World)"
+		}
 	}
 	hdr := "def " + cf.lean
 	if cf.usesBech {
